@@ -3,6 +3,8 @@ package xmssjs
 import (
 	"encoding/hex"
 	"fmt"
+	"strings"
+
 	"github.com/gopherjs/gopherjs/js"
 	"github.com/theQRL/go-qrllib/common"
 	"github.com/theQRL/go-qrllib/xmss"
@@ -81,6 +83,9 @@ func (x *XMSSJS) Sign(message string) string {
 }
 
 func XMSSVerify(message string, signature string, pk string) bool {
+	signature = clearPrefix0x(signature)
+	pk = clearPrefix0x(pk)
+
 	binMessage := []uint8(message)
 	binSignature, err := hex.DecodeString(signature)
 	if err != nil {
@@ -98,6 +103,7 @@ func XMSSVerify(message string, signature string, pk string) bool {
 }
 
 func GetXMSSAddressFromPK(pk string) string {
+	pk = clearPrefix0x(pk)
 	binPK, err := hex.DecodeString(pk)
 	if err != nil {
 		return ""
@@ -112,6 +118,7 @@ func GetXMSSAddressFromPK(pk string) string {
 }
 
 func IsValidXMSSAddress(address string) bool {
+	address = clearPrefix0x(address)
 	binAddr, err := hex.DecodeString(address)
 	if err != nil {
 		return false
@@ -121,4 +128,11 @@ func IsValidXMSSAddress(address string) bool {
 	copy(sizedBinAddr[:], binAddr)
 
 	return xmss.IsValidXMSSAddress(sizedBinAddr)
+}
+
+func clearPrefix0x(data string) string {
+	if strings.HasPrefix(data, "0x") {
+		return data[2:]
+	}
+	return data
 }
